@@ -50,6 +50,20 @@ fn check_attr(w: &dyn AttributeWrite, what: &str, ty: u16, value: &[u8]) -> Test
             hex(&hu),
             hex(&want)
         );
+        // a destination of exactly 4 bytes is enough
+        {
+            let mut d = [0xA5u8; 4];
+            let r = w.write_header(&mut d);
+            ensure!(
+                matches!(r, Ok(4)) && d == want[..4],
+                "c12-attr-write",
+                "{}: write_header into exactly 4 bytes gave {:?} and wrote {}, expected Ok(4) and {}",
+                what,
+                r,
+                hex(&d),
+                hex(&want[..4])
+            );
+        }
         for short in 0..4usize {
             let mut d = [0xA5u8; 4];
             let r = w.write_header(&mut d[..short]);
